@@ -1932,8 +1932,16 @@ func (e *Enc) encodeBinOp(in *ssa.BinOp) {
 		e.setVal(in, "Int", "(gomod "+x+" "+y+")")
 	case token.LAND, token.LOR:
 		e.havocVal(in)
+	case token.AND, token.OR, token.XOR, token.SHL, token.SHR, token.AND_NOT:
+		// bit operations: uninterpreted but functional (x & c is the same value wherever it is
+		// computed), so that assumed contracts can speak about flag tests such as mode&ModeSymlink
+		fn := map[token.Token]string{token.AND: "bitand", token.OR: "bitor", token.XOR: "bitxor", token.SHL: "bitshl", token.SHR: "bitshr", token.AND_NOT: "bitandnot"}[in.Op]
+		if s.SortOf(in.Type()) != "Int" {
+			e.havocVal(in)
+			return
+		}
+		e.setVal(in, "Int", "("+fn+" "+x+" "+y+")")
 	default:
-		// bit operations: opaque
 		e.havocVal(in)
 	}
 }
